@@ -197,7 +197,10 @@ func matchDiags(d diag.Diagnostics, exp []expDiag, exactCounts bool) string {
 	}
 	sort.Strings(details)
 	names := func(detail string, e expDiag) bool {
-		for _, tok := range strings.FieldsFunc(detail, func(r rune) bool { return r == ' ' || r == ':' || r == ',' || r == '"' || r == '\'' }) {
+		for _, tok := range strings.FieldsFunc(detail, func(r rune) bool {
+			return r == ' ' || r == ':' || r == ',' || r == ';' || r == '"' || r == '\'' || r == '`' || r == '(' || r == ')' || r == '[' || r == ']' || r == '{' || r == '}'
+		}) {
+			tok = strings.TrimRight(tok, ".")
 			if e.full != "" {
 				if tok == e.full {
 					return true
